@@ -236,6 +236,10 @@ func c05Key(c *Ctx, sx *symx.Ctx) {
 											hasQ = true
 										}
 									}
+									// or through a normalising helper of the repository
+									if _, root := stringChain(st.Val); root == ssa.Value(gk.Params[1]) {
+										hasQ = true
+									}
 								}
 							}
 						}
